@@ -60,6 +60,12 @@ func init() {
 	Exec["pbcmpl.Marshal/faulty"] = func(a []V) string {
 		return c06RunMarshal(a[0].Int(), a[1], a[2].L)
 	}
+	// widening: [stream bytes, chunk pattern, terminal kind, with last]
+	Exec["pbcmpl.Walk/bytes"] = func(a []V) string {
+		s := a[0].Bytes()
+		steps, left := c06Walk(c06NewReader(s, a[1].I64s(), a[2].Int(), a[3].Bool()), len(s))
+		return L(steps, left)
+	}
 	Register("C07", genC07)
 }
 
@@ -100,9 +106,16 @@ func c07Script(resp ...[2]int64) string {
 }
 
 func genC07(g *Gen) {
+	nstream := 0
 	stream := func(kind int, s []byte, pat []int64, tk int, wl bool, key, bucket string) {
 		g.Stat(bucket)
 		g.Do("pbcmpl.Unmarshal/stream", L(Int(kind), Bytes(s), I64s(pat), Int(tk), B(wl)), key)
+		// widening: the same bytes walked with ReadHeader + io.ReadFull (every 3rd stream; every one when thorough)
+		nstream++
+		if g.Thorough || nstream%3 == 0 {
+			g.Stat("walk:" + bucket)
+			g.Do("pbcmpl.Walk/bytes", L(Bytes(s), I64s(pat), Int(tk), B(wl)), "walk/"+key)
+		}
 	}
 	readHeader := func(s []byte, pat []int64, tk int, wl bool, key string) {
 		g.Stat("readheader")
